@@ -24,14 +24,27 @@
 (* left side bearing of glyph o in the source.                             *)
 (*                                                                         *)
 (* Abstract fonts (glyph g lives at index g + 1 of every sequence):        *)
-(*   [n, kind, shape, comp, nhm, long, tail]                               *)
+(*   [n, kind, shape, comp, instr, nhm, long, tail]                        *)
 (*     kind[g+1]  \in {"empty", "simple", "composite"}                     *)
 (*     shape[g+1]    a token naming the contours of a simple glyph         *)
-(*     comp[g+1]     sequence of [g |-> target, dx |-> .., dy |-> ..]      *)
+(*     comp[g+1]     sequence of component records                         *)
+(*                     [g  |-> target glyph id,                            *)
+(*                      fl |-> the flag bits that bear on the glyph        *)
+(*                             (CompSem: ARGS_ARE_XY_VALUES, ROUND_XY_TO_  *)
+(*                             GRID, the three transform bits, USE_MY_     *)
+(*                             METRICS, OVERLAP_COMPOUND, (UN)SCALED_      *)
+(*                             COMPONENT_OFFSET),                          *)
+(*                      w  |-> ARG_1_AND_2_ARE_WORDS (an encoding choice), *)
+(*                      a1, a2 |-> the two arguments (offsets, or point    *)
+(*                             numbers when ARGS_ARE_XY_VALUES is clear),  *)
+(*                      tr |-> the F2Dot14 raw values of the transform:    *)
+(*                             <<>>, <<scale>>, <<xscale, yscale>> or      *)
+(*                             <<xscale, scale01, scale10, yscale>>]       *)
+(*     instr[g+1]    the instruction bytes of the glyph                    *)
 (*     nhm           numberOfHMetrics, 1 .. n                              *)
 (*     long          nhm records [adv, lsb];  tail: n - nhm lsb values     *)
 (***************************************************************************)
-EXTENDS Integers, Sequences, FiniteSets, TLC
+EXTENDS Integers, Sequences, FiniteSets, TLC, Bitwise
 
 Range(s) == {s[i] : i \in 1 .. Len(s)}
 MinOf(S) == CHOOSE x \in S : \A y \in S : x <= y
@@ -122,32 +135,74 @@ HmtxStep(src, recs, hm) ==
 RECURSIVE HmtxRun(_, _, _)
 HmtxRun(src, recs, hm) == IF Len(hm) < Len(recs) THEN HmtxRun(src, recs, HmtxStep(src, recs, hm)) ELSE hm
 
+\* ---- component records ---------------------------------------------------------------
+\* flag bits of a component that bear on the glyph (not: ARG_1_AND_2_ARE_WORDS 0x0001, MORE_COMPONENTS
+\* 0x0020, WE_HAVE_INSTRUCTIONS 0x0100 - they follow from the record's shape - and the reserved bits)
+CompSem == 7886                   \* 0x1ECE
+FlScale == 8                      \* WE_HAVE_A_SCALE
+FlXYScale == 64                   \* WE_HAVE_AN_X_AND_Y_SCALE
+FlTwoByTwo == 128                 \* WE_HAVE_A_TWO_BY_TWO
+FlXY == 2                         \* ARGS_ARE_XY_VALUES
+TrBitsOf(tr) == IF Len(tr) = 0 THEN 0 ELSE IF Len(tr) = 1 THEN FlScale ELSE IF Len(tr) = 2 THEN FlXYScale ELSE FlTwoByTwo
+F2Dot14Raw == -32768 .. 32767
+
+\* a component record a font file can hold
+WellFormedComp(c) ==
+  /\ (c.fl & CompSem) = c.fl
+  /\ Len(c.tr) \in {0, 1, 2, 4}
+  /\ (c.fl & (FlScale + FlXYScale + FlTwoByTwo)) = TrBitsOf(c.tr)
+  /\ \A i \in 1 .. Len(c.tr) : c.tr[i] \in F2Dot14Raw
+  /\ LET A == IF (c.fl & FlXY) # 0 THEN (IF c.w THEN -32768 .. 32767 ELSE -128 .. 127)
+                                   ELSE (IF c.w THEN 0 .. 65535 ELSE 0 .. 255)
+     IN c.a1 \in A /\ c.a2 \in A
+
+(***************************************************************************)
+(* Everything that places and shapes a component - every field of the      *)
+(* record except the glyph id (renumbered) and the argument width.         *)
+(* Dev_ArgWidth: the width of the two arguments is an encoding choice; an  *)
+(* implementation may write words where the source had bytes (or bytes     *)
+(* where the values fit).  allsorts re-serialises the width it parsed, and *)
+(* so does the machine (OutFont); the relation does not demand it.         *)
+(***************************************************************************)
+Dev_ArgWidth == "as-parsed"
+PlacementOf(c) == <<c.fl, c.a1, c.a2, c.tr>>
+PlacementsOf(cs) == [k \in 1 .. Len(cs) |-> PlacementOf(cs[k])]
+
 \* ---- the written font ------------------------------------------------------------
-\* records are cloned, component ids rewritten (offsets untouched), hmtx all long metrics
+\* records are cloned; of a composite only the component glyph ids are rewritten (every other field
+\* and the instructions are re-serialised as parsed); hmtx all long metrics
 OutFont(src, recs, hm) ==
   [n     |-> Len(recs),
    kind  |-> [i \in 1 .. Len(recs) |-> src.kind[recs[i].old + 1]],
    shape |-> [i \in 1 .. Len(recs) |-> src.shape[recs[i].old + 1]],
    comp  |-> [i \in 1 .. Len(recs) |->
                 LET c == src.comp[recs[i].old + 1] IN
-                [k \in 1 .. Len(c) |-> [g |-> recs[i].comps[k], dx |-> c[k].dx, dy |-> c[k].dy]]],
+                [k \in 1 .. Len(c) |-> [c[k] EXCEPT !.g = recs[i].comps[k]]]],
+   instr |-> [i \in 1 .. Len(recs) |-> src.instr[recs[i].old + 1]],
    nhm   |-> Len(hm),
    long  |-> hm,
    tail  |-> <<>>]
 
 \* ---- outlines: a glyph flattened through its components ----------------------------
-\* result [ok, ls]: ls is the sequence of <<shape token, dx, dy>> of the simple glyphs reached, in
-\* drawing order, each displaced by the sum of the component offsets on the way down.  A cycle (or
-\* nesting deeper than the fuel) has no outline: ok = FALSE.
+\* result [ok, ls]: ls is the sequence of <<shape token, placement path>> of the simple glyphs reached,
+\* in drawing order; the placement path lists, from the glyph down to the leaf, the placement (flags,
+\* arguments, transform) of every component passed.  A cycle (or nesting deeper than the fuel) has no
+\* outline: ok = FALSE.
+\* Dev_OutlineAsPlacementPath: equal leaves under equal placement paths draw equal outlines.  The
+\* geometric composition of 2.14 transforms does not fit TLC's integers, so the model states the
+\* outline at this (finer) grain; the geometric comparison is made on recorded events through allsorts'
+\* outline visitor on source and output (Trace_Subset).  An implementation that re-expressed transforms
+\* (folding nested composites, say) would need the relation loosened here; allsorts clones records.
+Dev_OutlineAsPlacementPath == "leaf-and-placement-path"
 NoOutline == [ok |-> FALSE, ls |-> <<>>]
-Shift(ls, dx, dy) == [i \in 1 .. Len(ls) |-> <<ls[i][1], ls[i][2] + dx, ls[i][3] + dy>>]
+Under(ls, p) == [i \in 1 .. Len(ls) |-> <<ls[i][1], <<p>> \o ls[i][2]>>]
 
 RECURSIVE Flat(_, _, _), FlatComps(_, _, _, _)
 Flat(f, g, fuel) ==
   IF g < 0 \/ g >= f.n THEN NoOutline
   ELSE LET k == f.kind[g + 1] IN
        IF k = "empty" THEN [ok |-> TRUE, ls |-> <<>>]
-       ELSE IF k = "simple" THEN [ok |-> TRUE, ls |-> << <<f.shape[g + 1], 0, 0>> >>]
+       ELSE IF k = "simple" THEN [ok |-> TRUE, ls |-> << <<f.shape[g + 1], <<>> >> >>]
        ELSE IF fuel = 0 THEN NoOutline
        ELSE FlatComps(f, f.comp[g + 1], fuel - 1, <<>>)
 FlatComps(f, cs, fuel, acc) ==
@@ -155,14 +210,22 @@ FlatComps(f, cs, fuel, acc) ==
   ELSE LET c == Head(cs)
            r == Flat(f, c.g, fuel)
        IN IF ~r.ok THEN NoOutline
-          ELSE FlatComps(f, Tail(cs), fuel, acc \o Shift(r.ls, c.dx, c.dy))
+          ELSE FlatComps(f, Tail(cs), fuel, acc \o Under(r.ls, PlacementOf(c)))
 
 \* fuel: no acyclic path visits more glyphs than the font has
 Outline(f, g) == Flat(f, g, f.n)
 
 \* ---- the property -----------------------------------------------------------------
+\* a retained glyph keeps its kind and its instructions, a retained composite every field of every
+\* component except the (renumbered) glyph id (Dev_ArgWidth: and the argument width)
+RecordKept(src, out, n, o) ==
+  /\ out.kind[n + 1] = src.kind[o + 1]
+  /\ PlacementsOf(out.comp[n + 1]) = PlacementsOf(src.comp[o + 1])
+  /\ out.instr[n + 1] = src.instr[o + 1]
+
 GlyphPreserved(src, out, n, o) ==
   /\ Outline(out, n) = Outline(src, o)
+  /\ RecordKept(src, out, n, o)
   /\ AdvOf(out, n) = AdvOf(src, o)
   /\ LsbOf(out, n) = LsbOf(src, o)
 
